@@ -34,7 +34,9 @@ const rule = "corpus of long-running programs (for/while loops, pipelines with e
 	"fed by a list and by a pipeline, nested peach, sleep, recursive function calls, try/finally, run-parallel, a background job) × " +
 	"interrupt mode: none, deterministic at every step 1..steps+1 (synchronous cancel from inside the program), asynchronous at " +
 	"swept and random delays × GOMAXPROCS 1..16 with Gosched/spin injected at hook points; non-trivial = an interrupt was delivered " +
-	"before the evaluation finished; distinct by op spec"
+	"before the evaluation finished; distinct by op spec; + real-signal scripts (`sig`): a worker process runs sequences of " +
+	"sequential and overlapping evaluations, each with its own eval.ListenInterrupts, with or without the shell's session-wide " +
+	"signal channel, and is sent real SIGINT/SIGQUIT during evaluations, between them and after a listener's cleanup"
 
 func run(c *common.Ctx) error {
 	if c20.IsChild("C19") {
@@ -224,6 +226,7 @@ func render(toks []string, pos *int, depth int) string {
 
 func gen(c *common.Ctx, emit func(...string)) {
 	r := c.Rand
+	genSig(c, emit)
 	for i := 0; i < c.Scale(150, 3000); i++ {
 		sleeps := 0
 		toks := genProg(r, 3, &sleeps)
@@ -531,6 +534,9 @@ func ExecOp(spec string) c20.OpResult {
 	bad := c20.OpResult{Op: spec + "\t-", Impl: "bad-op", Class: "bad-op", Detail: spec}
 	if len(f) == 3 && f[0] == "seq" {
 		return execSeq(f)
+	}
+	if len(f) == 3 && f[0] == "sig" {
+		return execSig(f)
 	}
 	if len(f) != 4 || f[0] != "int" {
 		return bad
